@@ -240,20 +240,23 @@ impl Elem for E {
 }
 
 /// the storage under test, constructed the way the trace says
-fn construct<T: Default>(ctor: u8, cov: &mut Cov) -> Storage<T> {
+fn construct<T: Default>(ctor: u8, cov: &mut Cov) -> Result<Storage<T>, PanicInfo> {
     match ctor {
         1 => {
             cov.hit("reached.storage_from_default");
-            Storage::default()
+            Ok(Storage::default())
         }
         2 => {
             cov.hit("reached.storage_left_by_mem_take");
-            let mut tmp: Storage<T> = Storage::new();
-            tmp.append(T::default());
-            let _old = std::mem::take(&mut tmp);
-            tmp
+            // (the append on the storage that is taken away is code under test too)
+            guarded(|| {
+                let mut tmp: Storage<T> = Storage::new();
+                tmp.append(T::default());
+                let _old = std::mem::take(&mut tmp);
+                tmp
+            })
         }
-        _ => Storage::new(),
+        _ => Ok(Storage::new()),
     }
 }
 
@@ -278,7 +281,16 @@ fn execute_zst(t: &Trace, cov: &mut Cov) -> RunOut {
     // NaN-like relation => never equal; anything else => always equal
     let never = matches!(t.relation, Relation::NanLike(_));
     Z_EQUAL.with(|z| z.set(!never));
-    let mut st: Storage<Z> = construct(t.ctor, cov);
+    let mut st: Storage<Z> = match construct(t.ctor, cov) {
+        Ok(st) => st,
+        Err(pi) => {
+            return RunOut {
+                violation: Some(Violation::new("C19.append.panic", "op=append zero-sized", 0, pi.detail())),
+                abs_hash: 0x5a5a,
+                nontrivial: true,
+            }
+        }
+    };
     let mut count: u32 = 0;
     let mut h = AbsHash::new();
     let mut viol = None;
@@ -357,7 +369,16 @@ fn run_history<T: Elem>(t: &Trace, cov: &mut Cov) -> RunOut {
     EQ_CALLS.with(|c| c.set(0));
     UNWIND_AT.with(|u| u.set(t.unwind_at.unwrap_or(0)));
 
-    let mut st: Storage<T> = construct(t.ctor, cov);
+    let mut st: Storage<T> = match construct(t.ctor, cov) {
+        Ok(st) => st,
+        Err(pi) => {
+            return RunOut {
+                violation: Some(Violation::new("C19.append.panic", "op=append", 0, pi.detail())),
+                abs_hash: 0,
+                nontrivial: true,
+            }
+        }
+    };
     let mut model: Vec<(u32, u32)> = vec![]; // (class, uid)
     let mut tokens: Vec<(Token<T>, u32)> = vec![]; // every token ever returned with the uid it must resolve to
     let mut append_tokens: Vec<u32> = vec![];
@@ -588,8 +609,8 @@ impl Property for C19 {
 
     fn runs(tier: Tier) -> u64 {
         match tier {
-            Tier::Quick => 400_000,
-            Tier::Thorough => 40_000_000,
+            Tier::Quick => 1_000_000,
+            Tier::Thorough => 100_000_000,
         }
     }
 
@@ -643,9 +664,14 @@ impl Property for C19 {
                         let step = if prefill_by_fetch { 2 } else { 1 };
                         let n = prefill as u64;
                         // early values, the newest ones, or anywhere in between (block / window boundaries of a scan)
-                        let k = match rng.below(3) {
+                        let k = match rng.below(4) {
                             0 => rng.below(64.min(n)),
                             1 => n - 1 - rng.below(64.min(n)),
+                            2 => {
+                                // the edge of a power-of-two look-back window (64 .. 65536 values before the end)
+                                let w = 1u64 << rng.range(6, 16);
+                                (n + 2).saturating_sub(w + rng.below(4)).min(n - 1)
+                            }
                             _ => rng.below(n),
                         };
                         *c = PREFILL_CLASS + (step * k + if prefill_by_fetch { rng.below(2) } else { 0 }) as u32;
